@@ -227,6 +227,14 @@ MALFORMED = ["", " ", "\n\t", "(", ")", "(a", "a)", "((a)", "[a TO", "[a TO b", 
              "now/d", "path:/var/log/syslog", "a / b", "/a\\/b/ c",
              # a byte order mark / zero-width characters at the start and after blanks (characters of a term)
              "\ufeffa", "\ufeff a", " \ufeffa b", "\ufeff", "\u200b a", "a \ufeff:b",
+             # comparisons whose bound begins with `=` (after a blank: nothing to disambiguate), escaped and quoted
+             "< =test", "price:> =5", " tag:(>\t=a OR <\u00a0=b) ", "-<  =x AND y", ">= =5", "<\\=5", '<"=5"', "> =", "<=  =a",
+             ">==5", "<==", "> =5^2", "f:< =a~1", "< \\=a",
+             # an escaped line break inside a term, a phrase, a regex (a backslash followed by a line feed)
+             "/a\\\nb/", "f:/a\\\nb/ AND c", "x /\\\n/", "foo\\\nbar", '"foo\\\nbar"', "a\\\n", "/a\nb/", '"a\nb"',
+             # ONE token and nothing else but a blank before / after it (a line feed, a tab, CR LF, several)
+             "foo\n", "TO\n", "a\n", "\nfoo", "foo\r\n", "foo\t", "AND\n", "f:foo\n", '"p"\n', "/r/\n", "foo~\n", "foo\n\n",
+             "foo \n", "\tfoo", "foo\u3000", "foo\x0b", "foo\x1c", "_\n", "9\n", "\u00e9\n", "NOT\n",
              # a bare ^ or ~ (implicit numeral) after every kind of operand, with and without a field
              "f:(a b)^", "f:(a b)^ c", "f:(a b)^2", "f:(a b)^1", "f:( a b ) ^", "(a b)^", "f:a^", 'f:"p q"~', 'f:"p q"^',
              "f:[a TO b]^", "f:/r/^", "g:(f:(a b)^)", "NOT f:(a)^", "f:(a b)^^", "f:(a b)~", "f:(a b)^ ^2", "f:((a b)^)",
